@@ -954,7 +954,7 @@ func (eval Evaluator) MulThenAdd(op0 *rlwe.Ciphertext, op1 rlwe.Operand, opOut *
 		}
 
 		// opOut may hold a non-relinearized accumulator of higher degree than op0
-		opOut.Resize(utils.Max(op0.Degree(), opOut.Degree()), opOut.Level())
+		opOut.Resize(utils.Max(op0.Degree(), opOut.Degree()), level)
 
 		// Gets the ring at the minimum level
 		ringQ := eval.GetParameters().RingQ().AtLevel(level)
